@@ -117,6 +117,8 @@ where
         };
 
         if next_offset == 0 {
+            // Keep the terminating slot so that `size()` can tell it from a last item without one.
+            self.data = Some(data);
             return None;
         } else if next_offset == L::max_value().to_usize().unwrap() {
             last = true;
@@ -166,7 +168,7 @@ where
         };
         match iter.data {
             Some(_) => iter.pos + Self::OFFSET_SIZE,
-            None => iter.pos + ceil_mul(T::from_bytes(last_payload).unwrap().size(), Self::ALIGN),
+            None => iter.pos + Self::OFFSET_SIZE + ceil_mul(T::from_bytes(last_payload).unwrap().size(), Self::ALIGN),
         }
     }
 }
